@@ -111,6 +111,7 @@ type Contracts struct {
 	Funcs   map[string]*FuncContract
 	Specs   map[string]*SpecFunc
 	Axioms  []*Axiom
+	ChanInvs []*ChanInv
 	Assumes []string // textual record of every 'trusted'/'assume'
 }
 
@@ -123,7 +124,7 @@ var tagRe = regexp.MustCompile(`^\[([A-Za-z0-9_, ]+)(?::([A-Za-z0-9_\-\.]+))?\]\
 var keywords = map[string]bool{
 	"func": true, "props": true, "requires": true, "ensures": true, "modifies": true,
 	"loop": true, "invariant": true, "decreases": true, "inline": true, "trusted": true,
-	"pure": true, "unroll": true, "spec": true, "package": true, "noterm": true, "assert": true, "axiom": true, "lemma": true, "callsite": true, "ghost": true, "onassign": true, "oncall": true, "aftercall": true, "closure": true,
+	"pure": true, "unroll": true, "spec": true, "package": true, "noterm": true, "assert": true, "axiom": true, "lemma": true, "callsite": true, "ghost": true, "onassign": true, "oncall": true, "aftercall": true, "closure": true, "chaninv": true,
 }
 
 // LoadFile parses a contract file. pkgPath is the default package path
@@ -220,6 +221,19 @@ func (cs *Contracts) LoadFile(path string, pkgPath string, external bool) error 
 				return errf("%v", err)
 			}
 			cs.Axioms = append(cs.Axioms, &Axiom{PkgPath: pkgPath, Text: rest, E: e, File: path, Line: l.line})
+			cur, curLoop = nil, nil
+		case "chaninv":
+			// chaninv <elem type>: <expr over v>  -- every value sent on a channel of this element
+			// type inside this package satisfies expr (checked at sends, assumed at receives)
+			ci := strings.Index(rest, ":")
+			if ci < 0 {
+				return errf("chaninv needs '<type>: <expr>'")
+			}
+			e, err := ParseExpr(strings.TrimSpace(rest[ci+1:]))
+			if err != nil {
+				return errf("%v", err)
+			}
+			cs.ChanInvs = append(cs.ChanInvs, &ChanInv{PkgPath: pkgPath, Elem: strings.TrimSpace(rest[:ci]), Text: rest, E: e})
 			cur, curLoop = nil, nil
 		case "spec":
 			sf, err := parseSpec(rest)
@@ -581,4 +595,12 @@ func (cs *Contracts) LoadExtDir(dir string) error {
 		}
 	}
 	return nil
+}
+
+// ChanInv is a per-package channel invariant on an element type.
+type ChanInv struct {
+	PkgPath string
+	Elem    string
+	Text    string
+	E       Expr
 }
